@@ -265,15 +265,31 @@ def mkTimestamp (sec nsec : Int) : PyM OTs :=
 /-- `s.ljust(n, c)` -/
 def ljust (n : Nat) (c : Char) (s : Str) : Str := s ++ List.replicate (n - s.length) c
 
+/-- the tests 64745db added to the `aaaa.bbbb` form (when they are in the source, `tsFracStrict`): `int(parts[1])` —
+the whole fraction must be an integer literal, so `1.234567891e-05` falls to the float form — and
+`sec == 0 and parts[0].startswith('-')` — `-0.5` stays a float, a `Timestamp` cannot carry its sign -/
+def fracStrictChecks (P : Params) (sec : Int) (p0 p1 : Str) : PyM Unit :=
+  if tsFracStrict then
+    match P.intE p1 with
+    | .error e => .error e
+    | .ok _ => if sec == 0 && p0.head? == some '-' then .error .valueError else .ok ()
+  else .ok ()
+
 /-- the second form `aaaa.bbbb`; `parts[1]` is an explicit IndexError site -/
-def parseTimestampFrac (P : Params) (ts : Str) : PyM OTs := do
+def parseTimestampFrac (P : Params) (ts : Str) : PyM OTs :=
   let parts := splitFirst '.' ts
-  let a ← P.intE parts.1
-  match parts.2 with
-  | none => throw .indexError
-  | some p1 =>
-    let b ← P.intE (ljust 9 '0' (p1.take 9))
-    mkTimestamp a b
+  match P.intE parts.1 with
+  | .error e => .error e
+  | .ok a =>
+    match parts.2 with
+    | none => .error .indexError
+    | some p1 =>
+      match fracStrictChecks P a parts.1 p1 with
+      | .error e => .error e
+      | .ok _ =>
+        match P.intE (ljust 9 '0' (p1.take 9)) with
+        | .error e => .error e
+        | .ok b => mkTimestamp a b
 
 /-- the third form: `float(timestamp)`, NaN and infinities rejected -/
 def parseTimestampFloat (P : Params) (ts : Str) : PyM OTs := do
@@ -300,6 +316,8 @@ deriving Repr, DecidableEq
 structure RAcc where
   state : RState := .timestamp
   inQuotes : Bool := false
+  /-- the previous character was an unescaped backslash (maintained always, consulted only with `remEscapeAware`) -/
+  escaped : Bool := false
   timestamp : Str := []
   exValue : Str := []
   exTs : Str := []
@@ -312,10 +330,11 @@ def exemplarLabels (P : Params) (text : Str) : PyM Labels :=
   let labelEnd := optIdx (lastUnquotedChar text (· == '}'))
   parseLabels P.legacy (pySlice text (labelStart + 1) labelEnd) true
 
-/-- one iteration of `for char in it:` — the in-quotes flag flips on EVERY double quote (F18) -/
+/-- one iteration of `for char in it:` — the in-quotes flag flips on every double quote that is not preceded by an
+unescaped backslash (bc8d08a, `remEscapeAware`); before that repair it flipped on EVERY double quote (F18) -/
 def remStep (P : Params) (text : Str) (a : RAcc) (char : Char) : PyM RAcc :=
-  let inQ := if char == '"' then !a.inQuotes else a.inQuotes
-  let a := { a with inQuotes := inQ }
+  let inQ := if char == '"' && !(remEscapeAware && a.escaped) then !a.inQuotes else a.inQuotes
+  let a := { a with inQuotes := inQ, escaped := char == '\\' && !a.escaped }
   if inQ then .ok a
   else match a.state with
     | .timestamp =>
